@@ -367,11 +367,9 @@ bool CheckCompatible(const StructuredData& data, const rslang::Typification& typ
       return true;
     }
     case rslang::StructureType::collection: {
-      if (data.B().IsEmpty()) {
-        return true;
-      } else {
-        return CheckCompatible(*std::begin(data.B()), type.B().Base());
-      }
+      const auto& base = type.B().Base();
+      return std::all_of(std::begin(data.B()), std::end(data.B()),
+        [&](const auto& element) { return CheckCompatible(element, base); });
     }
     case rslang::StructureType::tuple:
       if (data.T().Arity() != type.T().Arity()) {
